@@ -72,6 +72,7 @@ struct vp_state {
 };
 extern struct vp_state vp;
 extern FILE *vp_out;
+extern int vp_quiet;
 
 void vp_init(int argc, char **argv);          /* parses --seed --from --to, installs handlers */
 const char *vp_arg(const char *name, const char *dflt);
